@@ -63,6 +63,10 @@ def check(ctx):
     r = ctx.tlc("GstuffMC", "GstuffMCthorough.cfg" if ctx.thorough else "GstuffMC.cfg", workers=16, timeout=2400, xmx="24g")
     if not r.ok:
         ctx.model_violation(r, "receiver x monitor product")
+    if ctx.thorough:   # beyond the exhaustive bound: random streams against receivers of capacity 6 and 8
+        r = ctx.tlc("GstuffMC", "GstuffSim.cfg", workers=16, simulate=20000, depth=80, coverage=False, timeout=1500)
+        if not r.ok:
+            ctx.model_violation(r, "Gstuff receiver invariants (simulation)")
     script = streams(ctx)
     ctx.samples.append({"script_prefix": script[:4]})
     t = ctx.drive(drv, script, "gstuff_rx")
